@@ -188,6 +188,10 @@ def run(tier):
             rep.extra.setdefault("multi_char_agreement", {})["skip_ws_to_eol"] = ncase
         except (fold.Unsupported, fold.Diverged) as ex:
             rep.incomplete("cannot fold skip_ws_to_eol: %s" % ex, ovw.span)
+    # (iii-arm) the two arms of the block-scalar content reader (how much is buffered differs between back-ends): same stop class, same text
+    from . import armconfluence
+    rep.floor("implementations of raw_read_non_breakz_ch", armconfluence.raw_read_contract(rep, F), 2)
+    rep.floor("arms of scan_block_scalar_content_line", armconfluence.arms(rep, F), 2)
     # (iii'') the bulk operations: one round of the override's loop and of the provided body's loop, tabulated over the unit at the cursor
     from . import bulkops
     rep.floor("bulk operations compared", bulkops.check(rep, F), 3)
